@@ -242,16 +242,47 @@ Proof. exact (conj front_matter_lost_as_found front_matter_kept_repaired). Qed.
 Check C08_front_matter_refuted : C08_front_matter_refuted_stmt.
 Print Assumptions C08_front_matter_refuted.
 
-(* links in table cells, links typed `./k`, and the inline links of a note that moves to
-   another directory are not rewritten (any variant) *)
+(* links in table cells are not rewritten (any variant) *)
 Definition C08_unrewritten_refuted_stmt : Prop :=
-  (forall fx, change_key_tree fx "k" "new" W5_tree = W5_tree /\ tree_refers "k" W5_tree = false) /\
-  (forall fx, from_rel_link_url "./k" "" = "k" /\
-              change_key_inline fx "k" "new" (Link "./k" "" Regular [Str "x"]) = Link "./k" "" Regular [Str "x"]) /\
-  (forall fx, rename_core fx o0 tree_scan W7 "k" (Ok (Some "k")) "d/new"
-              = Ok (REdits [OpDelete "k"; OpCreate "d/new"; OpInsert "d/new" ("see [A](a)" +++ LFS +++ LFS +++ "[A](../a)" +++ LFS)]) /\
-              from_rel_link_url "a" (key_parent "d/new") = "d/a").
+  (forall fx, change_key_tree fx "k" "new" W5_tree = W5_tree /\ tree_refers "k" W5_tree = false).
 Theorem C08_unrewritten_refuted : C08_unrewritten_refuted_stmt.
-Proof. exact (conj table_link_untouched (conj raw_url_untouched move_dir_inline_not_rebased)). Qed.
+Proof. exact table_link_untouched. Qed.
 Check C08_unrewritten_refuted : C08_unrewritten_refuted_stmt.
 Print Assumptions C08_unrewritten_refuted.
+
+(* F-C08-rawurl and the inline part of F-C08-newname, repaired: the graph holds an inline note link by the key it
+   names from the note's directory (`./k` in the root and `../k` in d/ are the note k and are retargeted, `k` typed
+   in d/ is d/k and is left alone), and a note that moves to another directory has its inline links written
+   relative to the new place, like its block references (formerly C08_unrewritten_refuted stated the opposite) *)
+Definition C08_inline_by_key_stmt : Prop :=
+  (forall fx,
+     from_rel_link_url "./k" "" = "k" /\ from_rel_link_url "../k" "d" = "k" /\ from_rel_link_url "k" "d" = "d/k" /\
+     change_key_inline fx "k" "new" (to_ginline "" (Link "./k" "" Regular [Str "x"]))
+     = Link "new" "" Regular (if fx_label fx then [Str "x"] else []) /\
+     change_key_inline fx "k" "new" (to_ginline "d" (Link "../k" "" Regular [Str "x"]))
+     = Link "new" "" Regular (if fx_label fx then [Str "x"] else []) /\
+     change_key_inline fx "k" "new" (to_ginline "d" (Link "k" "" Regular [Str "x"])) = Link "d/k" "" Regular [Str "x"]) /\
+  (forall fx, rename_core fx o0 tree_scan W7 "k" (Ok (Some "k")) "d/new"
+              = Ok (REdits [OpDelete "k"; OpCreate "d/new"; OpInsert "d/new" ("see [A](../a)" +++ LFS +++ LFS +++ "[A](../a)" +++ LFS)]) /\
+              from_rel_link_url "../a" (key_parent "d/new") = "a").
+Theorem C08_inline_by_key : C08_inline_by_key_stmt.
+Proof. exact (conj raw_url_retargeted move_dir_inline_rebased). Qed.
+Check C08_inline_by_key : C08_inline_by_key_stmt.
+Print Assumptions C08_inline_by_key.
+
+(* every inline note link the reader builds is kept by the key it resolves to from the note's directory, so
+   change_key hits it exactly when it resolves to the renamed note (and reads as a note url) *)
+Theorem C08_inline_hit_resolved :
+  forall old url dir,
+    is_ref_url url = true ->
+    change_key_inline as_found old "n" (to_ginline dir (Link url "" Regular [])) =
+    if is_ref_url (from_rel_link_url url dir) && String.eqb (from_rel_link_url url dir) old
+    then Link "n" "" Regular [] else Link (from_rel_link_url url dir) "" Regular [].
+Proof. exact link_hits_resolved. Qed.
+Check C08_inline_hit_resolved :
+  forall old url dir,
+    is_ref_url url = true ->
+    change_key_inline as_found old "n" (to_ginline dir (Link url "" Regular [])) =
+    if is_ref_url (from_rel_link_url url dir) && String.eqb (from_rel_link_url url dir) old
+    then Link "n" "" Regular [] else Link (from_rel_link_url url dir) "" Regular [].
+Print Assumptions C08_inline_hit_resolved.
